@@ -313,7 +313,7 @@ let nth_perm (l : 'a list) (idx : int) : 'a list =
     | [] -> []
     | _ ->
         let n = List.length l in
-        let f = fact (n - 1) in
+        let f = if n - 1 > 20 then max_int else fact (n - 1) in   (* beyond 20! an OCaml int overflows: the head stays *)
         let q = idx / f and r = idx mod f in
         let x = List.nth l q in
         x :: go (List.filteri (fun i _ -> i <> q) l) r in
@@ -504,7 +504,13 @@ let run_case (x : sx) : unit =
                   Buffer.add_string kb (Printf.sprintf " (%d" sw);
                   List.iter (fun c -> Buffer.add_string kb (Printf.sprintf " %d" (int_of_n c))) cls;
                   Buffer.add_string kb ")") sws;
-              known_extra := Printf.sprintf " (k%s)" (Buffer.contents kb)
+              (* switch sets for which the end-to-end theorem of C01 applies (Model/Scope.v) *)
+              let tb = Buffer.create 32 in
+              List.iter (fun sw ->
+                  let sws = { sw_coalesce = sw land 1 <> 0; sw_shake = sw land 2 <> 0;
+                              sw_rewrite = sw land 4 <> 0; sw_matrix = sw land 8 <> 0 } in
+                  if (not r.r_optimised) && c01_scope sws r.r_det then Buffer.add_string tb (Printf.sprintf " %d" sw)) sws;
+              known_extra := Printf.sprintf " (k%s) (th%s)" (Buffer.contents kb) (Buffer.contents tb)
             end;
             if dec_bool f_validate then begin
               match validate o r with
